@@ -215,6 +215,12 @@ func (engine *Engine) TakeSnapshot() error {
 
 	manifest := new(Manifest)
 
+	// An empty manifest (created above by an earlier attempt that failed before it could publish
+	// a snapshot) records nothing: this is still the first snapshot.
+	if len(md) == 0 {
+		firstSnapshot = true
+	}
+
 	if !firstSnapshot {
 		if err = json.Unmarshal(md, manifest); err != nil {
 			log.Println(err)
@@ -248,15 +254,41 @@ func (engine *Engine) TakeSnapshot() error {
 	}
 
 	verifhook.Point("snapshot.take.state.copied")
-	// os.Create will replace the old manifest file
-	mf, err = os.Create(path.Join(dirname, "manifest.bin"))
+
+	// Write the snapshot file first: the manifest must never name a snapshot that is not
+	// completely on disk, so that a crash (or a failure) at any point of this function leaves
+	// the previous snapshot restorable.
+	snapshotDir := path.Join(engine.directory, "snapshots", fmt.Sprintf("%d", msec))
+	if err := os.MkdirAll(snapshotDir, os.ModePerm); err != nil {
+		return err
+	}
+	verifhook.Point("snapshot.take.dir.created")
+
+	// Create snapshot file
+	f, err := os.OpenFile(path.Join(snapshotDir, "state.bin"), os.O_WRONLY|os.O_CREATE|os.O_TRUNC, os.ModePerm)
 	if err != nil {
 		log.Println(err)
 		return err
 	}
-	verifhook.Point("snapshot.take.manifest.created")
+	verifhook.Point("snapshot.take.state.created")
 
-	// Write the latest manifest data
+	// Write state to file
+	if _, err = f.Write(out); err != nil {
+		_ = f.Close()
+		return err
+	}
+	verifhook.Point("snapshot.take.state.written")
+	if err = f.Sync(); err != nil {
+		log.Println(err)
+	}
+	if err = f.Close(); err != nil {
+		log.Println(err)
+		return err
+	}
+	verifhook.Point("snapshot.take.state.synced")
+
+	// Now publish the snapshot: write the new manifest next to the old one and rename it into
+	// place, which replaces the old manifest atomically.
 	manifest = &Manifest{
 		LatestSnapshotHash:         md5.Sum(out),
 		LatestSnapshotMilliseconds: msec,
@@ -266,8 +298,16 @@ func (engine *Engine) TakeSnapshot() error {
 		log.Println(err)
 		return err
 	}
+	manifestTmp := path.Join(dirname, "manifest.bin.tmp")
+	mf, err = os.Create(manifestTmp)
+	if err != nil {
+		log.Println(err)
+		return err
+	}
+	verifhook.Point("snapshot.take.manifest.created")
 	if _, err = mf.Write(mo); err != nil {
 		log.Println(err)
+		_ = mf.Close()
 		return err
 	}
 	verifhook.Point("snapshot.take.manifest.written")
@@ -279,36 +319,11 @@ func (engine *Engine) TakeSnapshot() error {
 		return err
 	}
 	verifhook.Point("snapshot.take.manifest.closed")
-
-	// Create snapshot directory
-	dirname = path.Join(engine.directory, "snapshots", fmt.Sprintf("%d", msec))
-	if err := os.MkdirAll(dirname, os.ModePerm); err != nil {
-		return err
-	}
-	verifhook.Point("snapshot.take.dir.created")
-
-	// Create snapshot file
-	f, err := os.OpenFile(path.Join(dirname, "state.bin"), os.O_WRONLY|os.O_CREATE, os.ModePerm)
-	if err != nil {
+	if err = os.Rename(manifestTmp, path.Join(dirname, "manifest.bin")); err != nil {
 		log.Println(err)
 		return err
 	}
-	defer func() {
-		if err := f.Close(); err != nil {
-			log.Println(err)
-		}
-	}()
-	verifhook.Point("snapshot.take.state.created")
-
-	// Write state to file
-	if _, err = f.Write(out); err != nil {
-		return err
-	}
-	verifhook.Point("snapshot.take.state.written")
-	if err = f.Sync(); err != nil {
-		log.Println(err)
-	}
-	verifhook.Point("snapshot.take.state.synced")
+	verifhook.Point("snapshot.take.manifest.renamed")
 
 	// Set the latest snapshot in unix milliseconds
 	engine.setLatestSnapshotTimeFunc(msec)
